@@ -31,12 +31,14 @@ BELT = ["src/crypto/belt/belt_%s.c" % m for m in ("mac", "hash", "dwp", "che", "
 UF = {"crypto/belt/belt_block.c": ["beltBlockEncr", "beltBlockEncr2", "beltBlockEncr3", "beltBlockDecr", "beltBlockDecr2", "beltBlockDecr3"],
       "crypto/belt/belt_lcl.c": ["beltPolyMul"]}
 for ent, fns in (("h_ct_stepv", ["beltMACStepV", "beltMACStepV2", "beltHashStepV", "beltHashStepV2"]),
-                 ("h_ct_aead", ["beltDWPStepV", "beltCHEStepV"]), ("h_ct_kwp", ["beltKWPUnwrap"])):
-    GROUPS.append(G("ct_belt." + ent[5:], "harness/C14/ct_belt.c", ent, BELT, stubs=["stubs/belt_uf.c"], strip=UF, level="B",
+                 ("h_ct_aead", ["beltDWPStepV", "beltCHEStepV"]), ("h_ct_kwp", ["beltKWPUnwrap"]), ("h_ct_kwp0", ["beltKWPUnwrap"])):
+    kwp = ent.startswith("h_ct_kwp")
+    GROUPS.append(G("ct_belt." + ent[5:], "harness/C14/ct_belt.c", ent, BELT, stubs=["stubs/belt_uf.c", "stubs/mem_ghost.c"],
+                    strip=dict(UF, **{"core/mem.c": ["memAlloc", "memFree", "memWipe"]}), level="B", defs=["CT_MAX=320"],
                     bound="data length 21 octets / token 32 octets; values fully symbolic", ndebug=True, branch_hook="v_hook",
-                    unwind=70, spec_unwind=162, split=True, search=2000, native_cflags=COV, extra=["--no-standard-checks"], checks=[],
-                    timeout=1500, fn=fns, tier="thorough", required=False, mem_gb=24,
-                    note="attempted: the CBMC query exhausts 8 GB (measured)"))
+                    unwind=70, spec_unwind=322, split=True, search=2000, native_cflags=COV, extra=["--no-standard-checks"], checks=[],
+                    timeout=1500, fn=fns, tier="quick" if kwp else "thorough", required=kwp, mem_gb=24,
+                    note="" if kwp else "attempted: the CBMC query exhausts 8 GB (measured)"))
     GROUPS.append(G("ct_belt." + ent[5:] + ".search", "harness/C14/ct_belt.c", ent, BELT, level="N", backend="native", search=60000,
                     native_cflags=COV, ndebug=True, fn=fns,
                     note="native stand-in: basic-block traces (gcc -O1, -fsanitize-coverage=trace-pc) of two runs on independent random "
